@@ -173,8 +173,15 @@ def parse_dump(txt):
     return runs
 
 
-def build_and_run(c, h, driver, hname="prog.h", cc="gcc", extra_flags=(), keep=False, timeout=120, extra_files=None):
+def build_and_run(c, h, driver, hname="prog.h", cc="gcc", extra_flags=(), keep=False, timeout=900, extra_files=None):
     """-> dict(compile_ok, compile_err, rc, stdout, stderr)"""
+    try:
+        return _build_and_run(c, h, driver, hname, cc, extra_flags, keep, timeout, extra_files)
+    except subprocess.TimeoutExpired as ex:
+        return {"compile_ok": False, "compile_err": f"TIMEOUT: {ex}", "stage": "timeout"}
+
+
+def _build_and_run(c, h, driver, hname, cc, extra_flags, keep, timeout, extra_files):
     d = tempfile.mkdtemp(prefix="vfc_", dir=os.environ.get("VF_TMP", "/tmp"))
     try:
         with open(os.path.join(d, hname), "w") as f:
